@@ -74,7 +74,7 @@ class StructV(V):
         return name in self.names or bool(self.paths and name in self.paths)
 
     def get(self, name):
-        if name not in self.names and self.paths and name in self.paths:
+        if self.paths and name in self.paths:
             cur = self
             for i in self.paths[name]:
                 cur = cur.fields[i]
@@ -82,7 +82,7 @@ class StructV(V):
         return self.fields[self.names.index(name)]
 
     def set(self, name, v):
-        if name not in self.names and self.paths and name in self.paths:
+        if self.paths and name in self.paths:
             cur = self
             for i in self.paths[name][:-1]:
                 cur = cur.fields[i]
